@@ -53,6 +53,50 @@ fn main() {
         let _ = out.flush();
         std::process::exit(0);
     }
+    if pos.first().map(|s| s.as_str()) == Some("export-e2") {
+        // Small generated scenarios for engine E2 (the real pool under Miri): drawn from the
+        // same swarm generator as C05, cut down to what Miri can execute in under a minute,
+        // and kept only if the native reference execution completes.
+        let count: usize = pos.get(1).and_then(|s| s.parse().ok()).unwrap_or(12);
+        let seed = core::verif_seed();
+        let mut kept: Vec<scenario::Scenario> = Vec::new();
+        let mut i = 0u64;
+        while kept.len() < count && i < 4000 {
+            let mut rng = rng::Rng::for_run(seed, "E2", i);
+            i += 1;
+            let mut sc = props::c05::gen_scenario(&mut rng, true);
+            let spatial = sc.net.layers.iter().any(|l| !matches!(l, cfg::LayerCfg::Dense { .. }));
+            if sc.net.layers.len() > 3 || sc.net.shapes().map(|v| v.iter().any(|s| s.count() > 40)).unwrap_or(true) {
+                continue;
+            }
+            let n = sc.train.len().min(5).max(2.min(sc.train.len()));
+            sc.train.x.truncate(n);
+            sc.train.y.truncate(n);
+            sc.batch = sc.batch.min(n).max(if n >= 2 { 2 } else { 1 });
+            sc.epochs = 1;
+            if let Some(v) = sc.val.as_mut() {
+                v.x.truncate(2);
+                v.y.truncate(2);
+            }
+            sc.eval = None;
+            sc.print = None;
+            // two parallel chunks of predict_batch only for the cheap (dense-only) networks
+            let want = if spatial { 3 } else { 66 };
+            while sc.pred.len() < want {
+                let x = gen::gen_input(&mut rng, &sc.net);
+                sc.pred.push(x);
+            }
+            sc.pred.truncate(want);
+            let env = exec::Env::reference((424_242, 1_337));
+            let (r, _) = exec::run_env(&env, |ctx| scenario::execute_full(&sc, ctx));
+            if r.is_ok() {
+                kept.push(sc);
+            }
+        }
+        let _ = writeln!(out, "{}", serde_json::to_string(&kept).unwrap());
+        let _ = out.flush();
+        std::process::exit(0);
+    }
     if pos.len() < 2 {
         eprintln!("usage: nsim <ID> quick|thorough | nsim replay <file>");
         std::process::exit(2);
